@@ -2,6 +2,7 @@
 C03 — flattened (child/parent) mappings are faithful; each nested struct is built once.
 -/
 import O2oModel.Props.C01
+import O2oModel.Lemmas.Tree
 namespace O2o
 
 /-- C03-2 (From side): a field marked `#[child(a.b)]` is read from `value.a.b.<field>` (named counterpart, default
@@ -117,5 +118,36 @@ theorem C03_sort_sorted (xs : List FieldContainer) : sortedByGr (sortByGr xs) = 
   | cons x xs ih =>
     simp only [List.foldr_cons]
     exact insertByGr_sorted x _ ih
+
+/-! ### each nested struct is built once (depth ≤ 1) -/
+
+/-- C03-1 for trees of depth ≤ 1, **any number of members and of children**: when the sorted member list is a sequence
+    of well-formed segments (a member that is not flattened, or *all* members of one child — which is what sorting by
+    group index yields for depth-1 paths: equal paths share a group), the Into body is `segmentsSpec`: one fragment per
+    segment in order, and a child segment is exactly one construction `name: Type { one line per member of that child,
+    its ghosts, ..update },`. Hence every intermediate struct is constructed exactly once and receives all and only its
+    own members.  (For deeper trees the statement is false of the code when sibling subtrees are interleaved — listed
+    known finding C03-interleaved-sibling-subtrees — and is not proved in general.) -/
+theorem C03_once_depth1 (ctx : ImplContext) (named : Bool) (hint : TypeHint)
+    (hk : ctx.kind.cls = .into) (cpa : ChildParentsAttr) (hcpa : ctx.input.attrs.childParentsAttr ctx.ty = some cpa)
+    (nr : Bool) (hnr : ctx.input.namedFields = .ok nr) (segs : List Segment) (fuel : Nat) (frags : TS) (idx : Nat)
+    (hf : totalSize segs + 8 < fuel) (hwf : segmentsWf ctx cpa segs) :
+    structInitLoop fuel (segs.flatMap Segment.containers) named ctx none hint frags idx =
+      (match segmentsSpec ctx nr hint segs idx with
+       | .ok ts => .ok (frags ++ ts, [])
+       | .error e => .error e) :=
+  structInitLoop_segments ctx named hint hk cpa hcpa nr hnr segs fuel frags idx hf hwf
+
+/-- inside a child, members are consumed one line each, in order, and the loop hands the first foreign member back -/
+theorem C03_child_members_all_and_only (ctx : ImplContext) (named : Bool) (cp : ChildPath) (crc : Option ChildRenderContext) (d : Nat)
+    (pfx : String) (hpfx : cp.getStr (some d) = .ok pfx) (hint : TypeHint)
+    (block : List (FieldContainer × Field)) (rest : List FieldContainer) (fuel : Nat) (frags : TS) (idx : Nat)
+    (hf : block.length + 1 < fuel) (hb : ∀ p ∈ block, AtLeaf ctx pfx d p)
+    (hrest : rest = [] ∨ ∃ fc rs, rest = fc :: rs ∧ pathMatches fc.path pfx = false) :
+    structInitLoop fuel (block.map (·.1) ++ rest) named ctx (some (cp, crc, d)) hint frags idx =
+      (match flatLines ctx hint (block.map (·.2)) idx with
+       | .ok ls => .ok (frags ++ ls, rest)
+       | .error e => .error e) :=
+  loop_leaf_block ctx named cp crc d pfx hpfx hint block rest fuel frags idx hf hb hrest
 
 end O2o
